@@ -253,6 +253,7 @@ def check_case(case, ev):
     # waiters only run when their signal is produced by an executed emitter
     executed_ref = {n["name"] for n in topo if n["name"] in active and args.get(n["name"]) is not None}
     blocked = True
+    never_fires = False
     while blocked:
         blocked = False
         for n in topo:
@@ -261,6 +262,11 @@ def check_case(case, ev):
                 if any(emitters.get(w) not in executed_ref for w in ws) or any(prod[p]["name"] not in executed_ref for p in n["params"] if p in prod and prod[p]["name"] in active and p not in vals and p not in n.get("defaults", {})):
                     executed_ref.discard(n["name"])
                     blocked = True
+                    never_fires = True
+    if never_fires:
+        # a waiter whose signal is emitted outside the active part never fires: its consumers see their defaults
+        env, args = ref.eval_dag(topo, vals, {}, active=executed_ref, answers=answers)
+        labels.add("waiter_never_fires")
     special = case["special"]
     ran = {f for f, _ in ctx.log}
     # the history before (parent / chained runs) shares ctx: only look at the last call
